@@ -50,6 +50,9 @@ type c07Params struct {
 	// QuickBound: preemption bound of this scenario in the quick tier (0 = the tier's bound)
 	QuickBound int `json:"quick_bound,omitempty"`
 	Prop   string       `json:"prop,omitempty"` // property the scenario reports under (default C07)
+	// Fine: every function entry of a server thread is a scheduling point (state
+	// shared without a synchronisation operation between the conflicting accesses)
+	Fine bool `json:"fine,omitempty"`
 }
 
 func (p c07Params) prop() string {
@@ -238,6 +241,7 @@ func c07Run(job *Job, p c07Params, prefix []int) (out schedOut) {
 			}
 		}
 		vsched.Prefix = prefix
+		vsched.Fine = p.Fine
 		vsched.Exploring = true
 		done := vsched.WaitUntilOr(func() bool {
 			for _, o := range ops {
@@ -252,6 +256,7 @@ func c07Run(job *Job, p c07Params, prefix []int) (out schedOut) {
 		}, int64(30*stdtime.Second))
 		vsched.Quiesce()
 		vsched.Exploring = false
+		vsched.Fine = false
 		vsched.OnPoint = nil
 		out.Trace = append([]vsched.ChoicePoint(nil), vsched.Trace...)
 		out.Diverged = vsched.Diverged
@@ -537,6 +542,12 @@ func c07Scenarios(tier string) []c07Params {
 		// a non-atomic script's write against a plain write on the same object (apply order = log order)
 		{Name: "evalna-vs-set", Pre: pre, Conns: [][][]string{{{"EVALNA", "return tile38.call('SET','k','a','POINT',7,7)", "0"}}, one("SET k a POINT 3 3")}, Model: map[string][][]string{"0.0": {w("SET k a POINT 7 7")}}},
 		{Name: "set-set-get-spin", Pre: pre, Conns: [][][]string{one("SET k a POINT 3 3"), one("SET k a POINT 4 4"), one("GET k a")}, Spin: true},
+		// readers share Server.mu and perform no synchronisation operation while they
+		// work: function-entry scheduling points (one preemption; thorough: two)
+		{Name: "fine:get-vs-scan", Pre: pre, Conns: [][][]string{two("GET k a WITHFIELDS", "FGET k a f"), two("SCAN k", "SCAN k WHERE f 1 1 IDS")}, Fine: true},
+		{Name: "fine:nearby-vs-within", Pre: pre, Conns: [][][]string{one("NEARBY k POINT 1 1"), one("WITHIN k BOUNDS 0 0 5 5")}, Fine: true},
+		{Name: "fine:evalro-vs-evalro", Pre: pre, Conns: [][][]string{{{"EVALRO", "return tile38.call('GET','k','a')", "0"}}, {{"EVALRO", "return tile38.call('GET','k','b')", "0"}}}, Fine: true},
+		{Name: "fine:set-vs-get", Pre: pre, Conns: [][][]string{one("SET k a FIELD f 2 POINT 3 3"), one("GET k a WITHFIELDS")}, Fine: true},
 		{Name: "set-vs-sweeper", Pre: append(pre, w("SET k e EX 1.1 POINT 6 6")), Conns: [][][]string{one("SET k e POINT 6 6"), one("GET k e")}, Expire: true},
 	}
 	if tier == "thorough" {
@@ -581,6 +592,9 @@ func checkC07(job *Job, res *Result) {
 		b := bound
 		if p.QuickBound > 0 && job.Tier != "thorough" {
 			b = p.QuickBound
+		}
+		if p.Fine {
+			b = bound - 1 // hundreds of points per execution
 		}
 		st := exploreSched(job, res, sc, b)
 		res.Extra[sc.Name] = map[string]any{"execs": st.Execs, "outcomes": len(st.Outcomes), "max_choice_points": st.MaxPoints, "bound": b}
